@@ -57,6 +57,9 @@ def configs(tier):
     for first, main, depth in (([4], [8], 1), ([8], [4], 1)) + (() if tier == "quick" else (([8], [16], 2), ([4, 4], [8, 8], 1), ([16], [8], 2))):
         out.append(dict(kind="mg_sizes", first=first, main=main, depth=depth))
         out.append(dict(kind="jacobi_sizes", first=first, main=main))
+    # a Wasserstein solver OBJECT used for a second pair (concolic: concrete masses, symbolic tolerances; body shared with C04)
+    for method in ("newton", "bregman", "bregman_adaptive"):
+        out.append(dict(kind="wasserstein_reuse", shape=[2, 2], method=method, num_iter=3, aa=0, draw=5, second_call=True))
     # the discretisation of a new Wasserstein solver object does not depend on objects built earlier in the process
     for shp in ([2, 2], [3, 2], [2, 1, 2]) + (() if tier == "quick" else ([3], [3, 3], [2, 2, 2])):
         for method in ("newton", "bregman"):
@@ -66,6 +69,10 @@ def configs(tier):
 
 def install_stubs():
     import z3
+
+    from . import c04
+
+    c04.install_stubs()  # exact linear solves / hmean for the Wasserstein configurations (Anderson's lstsq is re-stubbed below)
 
     import darsia.restoration.h1_regularization as h1
     import darsia.restoration.split_bregman_tvd as tv
@@ -188,6 +195,12 @@ def body(cfg):
         return body_sizes(cfg, da)
     if k == "wasserstein_setup":
         return body_wasserstein_setup(cfg, da)
+    if k == "wasserstein_reuse":
+        from . import c04
+
+        c04.ST.update(solve_calls=0, weight_calls=0, fault_at=None, fault_kind=None, fired=False)
+        c04._norm_uf() if S.instrumented() else None
+        return c04.body_stopping(cfg, da)
     shape = SHAPES[cfg["shape"]]
     dim = len(shape)
     img = S.array("img", shape, lo=-5, hi=5)
